@@ -106,6 +106,10 @@ class Interp:
         n = len(self.records)
         scan_positions = sorted(p for p in self.scanset if p < n)
         last_scan = max(self.scanset) if self.scanset else None
+        if self._has_last() and last_scan is not None and last_scan < n - 1 and not self.records[last_scan]:
+            raise Undefined("scan ends on an interior blank record with last() present")
+        if self._has_last() and n and not self.records[n - 1] and (n - 1) not in self.scanset and last_scan is not None and last_scan > n - 1:
+            raise Undefined("file ends in a blank record the scan does not denote")
         self.data_count = 0
         self.advance = 0
         self.stopped = False
